@@ -796,6 +796,8 @@ REQUIRED_PROBES = ["pair.nontrivial", "pair.seed0", "pair.sep.reseed", "pair.sep
                                                      "nd:gen.dag_avg_deg", "pair.default_seed_argument_omitted",
                                                      "nd.separated_by_an_unseeded_library_call"]
 
+REQUIRED_PROBES = REQUIRED_PROBES + ["thread.calls_outside_main_thread", "fault.died_in_a_numpy_call(np.*)", "seed.given_as_Generator", "seed.given_as_BitGenerator"]
+
 
 def simplify(op):
     """Simpler variants of one op for the minimiser."""
